@@ -226,6 +226,62 @@ Proof.
   - apply ext_eqb_intro. intros k. rewrite get_norm. apply patch_roundtrip.
 Qed.
 
+(* ---------------- diff_stat / diff_summary: counts are the sizes of the declarative diff ---------------- *)
+Definition n_type (ty : N) (d : list dentry) : N := N.of_nat (length (filter (fun e => dtype e =? ty) d)).
+
+Definition kind_ins (s : stmt) : N := match s with SInsert _ _ => 1 | _ => 0 end.
+Definition kind_upd (s : stmt) : N := match s with SUpdate _ _ => 1 | _ => 0 end.
+Definition kind_del (s : stmt) : N := match s with SDelete _ => 1 | _ => 0 end.
+Definition sum_by (f : stmt -> N) (l : list stmt) : N := fold_right (fun s acc => f s + acc) 0 l.
+
+Lemma sum_by_cons f s l : sum_by f (s :: l) = f s + sum_by f l.
+Proof. reflexivity. Qed.
+Lemma sum_by_app f l1 l2 : sum_by f (l1 ++ l2) = sum_by f l1 + sum_by f l2.
+Proof. induction l1 as [|s l1 IH]; [reflexivity|]. cbn [app]. rewrite !sum_by_cons, IH. lia. Qed.
+
+Lemma count_kind_acc l : forall i u d,
+  fold_left (fun acc s => let '(i, u, d) := acc in
+                          match s with SInsert _ _ => (i + 1, u, d) | SUpdate _ _ => (i, u + 1, d) | SDelete _ => (i, u, d + 1) end)
+            l (i, u, d)
+  = (i + sum_by kind_ins l, u + sum_by kind_upd l, d + sum_by kind_del l).
+Proof.
+  induction l as [|s l IH]; intros i u d.
+  - cbn [fold_left sum_by fold_right]. f_equal; [f_equal|]; lia.
+  - cbn [fold_left]. rewrite !sum_by_cons. destruct s; rewrite IH; cbn [kind_ins kind_upd kind_del].
+    all: match goal with |- (?a, ?b, ?c) = (?a', ?b', ?c') => replace a with a' by lia; replace b with b' by lia; replace c with c' by lia; reflexivity end.
+Qed.
+
+Lemma n_type_cons ty e d : n_type ty (e :: d) = (if dtype e =? ty then 1 else 0) + n_type ty d.
+Proof.
+  unfold n_type. cbn [filter]. destruct (dtype e =? ty); cbn [length]; lia.
+Qed.
+
+Lemma sums_of_entries d :
+  (forall k f t, In (k, f, t) d -> f <> t) ->
+  sum_by kind_ins (flat_map stmt_of d) = n_type 0 d /\
+  sum_by kind_upd (flat_map stmt_of d) = n_type 2 d /\
+  sum_by kind_del (flat_map stmt_of d) = n_type 1 d.
+Proof.
+  induction d as [|[[k f] t] d IH]; intros H; [repeat split; reflexivity|].
+  destruct IH as [I1 [I2 I3]]; [intros k' f' t' Hin; apply (H k' f' t'); right; exact Hin|].
+  assert (Hne : f <> t) by (apply (H k f t); left; reflexivity).
+  cbn [flat_map]. rewrite !n_type_cons, !sum_by_app, I1, I2, I3.
+  destruct f as [ra|], t as [rb|]; try (exfalso; apply Hne; reflexivity);
+    cbn [stmt_of dtype]; rewrite !sum_by_cons; cbn [sum_by fold_right kind_ins kind_upd kind_del N.eqb Pos.eqb];
+    repeat split; lia.
+Qed.
+
+(* the numbers of INSERT / UPDATE / DELETE statements (= rows added / modified / deleted of
+   dolt_diff_stat and dolt_diff_summary) are the numbers of added / modified / removed entries of the diff *)
+Theorem diff_counts a b :
+  count_kind (patch_stmts a b) = (n_type 0 (diff a b), n_type 2 (diff a b), n_type 1 (diff a b)).
+Proof.
+  unfold count_kind, patch_stmts. rewrite count_kind_acc.
+  destruct (sums_of_entries (diff a b)) as [I1 [I2 I3]].
+  - intros k f t Hin. apply (diff_exact a b) in Hin. tauto.
+  - rewrite I1, I2, I3. reflexivity.
+Qed.
+
 (* ---------------- non-vacuity ---------------- *)
 Example ex_quote : quote [97; 39; 92; 0; 10; 26] = [39; 97; 92; 39; 92; 92; 92; 48; 92; 110; 92; 90; 39].
 Proof. reflexivity. Qed.
